@@ -72,6 +72,16 @@ const ops = {
   },
 };
 
+// execMulti: run ref once and every out; compare each out with ref
+ops.execMulti = async (req) => {
+  const ra = await host.run(req.ref, current);
+  const results = [];
+  for (const o of req.outs) {
+    const rb = await host.run(o, current);
+    results.push(host.compare(ra, rb, req.opts));
+  }
+  return { refEvents: ra.trace.length, refTerm: ra.term, results };
+};
 ops.batch = async (req) => {
   const results = [];
   for (const r of req.reqs) { try { const f = ops[r.op]; if (!f) throw new Error('unknown op ' + r.op); results.push(await f(r)); } catch (e) { results.push({ error: String(e && e.stack || e) }); } }
